@@ -2,6 +2,7 @@ package main
 
 import (
 	"fmt"
+	"os"
 	"go/constant"
 	"go/token"
 	"go/types"
@@ -79,6 +80,7 @@ type FnCtx struct {
 	atomicsHavocked bool
 	pinned    bool
 	lockCount map[string]int
+	callSites int
 	og        *ogSpec
 	opKeys    map[ssa.Instruction]string
 	decided   []*OblResult
@@ -116,6 +118,7 @@ type Frame struct {
 	edgeGuards map[[2]*ssa.BasicBlock]Term
 	pathPred   *ssa.BasicBlock
 	loopLets   map[string]bound
+	curLoop    *loopInfo
 }
 
 type retState struct {
@@ -356,6 +359,7 @@ type loopInfo struct {
 	backs  []*ssa.BasicBlock // sources of back edges
 	spec   *LoopSpec
 	key    string
+	rangeAlloc *ssa.Alloc // hidden index of a range loop
 }
 
 func findLoops(fn *ssa.Function) map[*ssa.BasicBlock]*loopInfo {
@@ -475,6 +479,9 @@ func (c *FnCtx) runFunction(fr *Frame, entry *State) {
 			continue
 		}
 		st := c.mergeStates(ins)
+		if os.Getenv("GOVC_DEBUG") != "" && fr.depth == 0 {
+			fmt.Fprintf(os.Stderr, "block %d (%s): %d incoming, pc=%s\n", b.Index, b.Comment, len(ins), st.pc.S)
+		}
 		if st.pc.IsFalse() {
 			continue
 		}
@@ -586,6 +593,16 @@ func (c *FnCtx) bindLoopLets(fr *Frame, st *State, li *loopInfo) {
 }
 
 func (c *FnCtx) loopEntry(fr *Frame, st *State, li *loopInfo) {
+	if li.rangeAlloc == nil {
+		for _, in := range li.head.Instrs {
+			if u, ok := in.(*ssa.UnOp); ok && u.Op == token.MUL {
+				if a, ok := u.X.(*ssa.Alloc); ok && a.Comment == "rangeindex" {
+					li.rangeAlloc = a
+				}
+			}
+		}
+	}
+	fr.curLoop = li
 	c.bindLoopLets(fr, st, li)
 	env := c.specEnv(fr, st)
 	if li.spec != nil && fr.depth == 0 {
@@ -597,6 +614,7 @@ func (c *FnCtx) loopEntry(fr *Frame, st *State, li *loopInfo) {
 	}
 	ms := c.loopMods(fr, li)
 	c.havoc(st, fr, ms, "loop "+li.key)
+	c.havocGhostLocals(fr, st, li)
 	if li.spec != nil && len(li.spec.Mods) > 0 {
 		// interference: locations other threads may change between iterations
 		tmp := &FuncContract{Pkg: fr.contract.Pkg, Name: fr.contract.Name, HasMods: true, Modifies: li.spec.Mods}
@@ -629,6 +647,7 @@ func (c *FnCtx) loopBack(fr *Frame, st *State, li *loopInfo) {
 	if li.spec == nil || fr.depth != 0 {
 		return
 	}
+	fr.curLoop = li
 	env := c.specEnv(fr, st)
 	for i := range li.spec.Invs {
 		inv := &li.spec.Invs[i]
@@ -1033,5 +1052,40 @@ func (c *FnCtx) initEmbedded(st *State, t types.Type, ref Term, depth int) {
 			continue
 		}
 		c.initEmbedded(st, ft, sub, depth+1)
+	}
+}
+
+// havocGhostLocals: function-local ghosts assigned by an `after` hook of an operation inside
+// the loop are unknown at the loop head (like any other variable assigned in the loop).
+func (c *FnCtx) havocGhostLocals(fr *Frame, st *State, li *loopInfo) {
+	if c.og == nil || fr.depth != 0 {
+		return
+	}
+	assigned := map[string]bool{}
+	mark := func(in ssa.Instruction, key string) {
+		if in.Block() == nil || !li.blocks[in.Block()] {
+			return
+		}
+		for _, a := range c.og.afters[key] {
+			assigned[a.Name] = true
+		}
+	}
+	for in, key := range c.og.keys {
+		mark(in, key)
+	}
+	for sel, keys := range c.og.caseKey {
+		for _, k := range keys {
+			mark(sel, k)
+		}
+	}
+	var names []string
+	for n := range assigned {
+		names = append(names, n)
+	}
+	sort.Strings(names)
+	for _, n := range names {
+		if l, ok := c.og.locals[n]; ok {
+			st.cells[l.key] = c.freshValue(l.Type, "hv$ghost$"+n)
+		}
 	}
 }
